@@ -1,0 +1,103 @@
+// SPDX-FileCopyrightText: Copyright (c) 2022-2025 Objectionary.com
+// SPDX-License-Identifier: MIT
+
+//! Verification hook, compiled only with the `verif` cargo feature.
+//!
+//! It exposes a plain-data, read-only copy of the complete internal
+//! state of a [`Sodg`], for external test harnesses. It never mutates
+//! the graph and is absent from normal builds.
+
+use crate::{Hex, Persistence, Sodg};
+
+/// A plain copy of one vertex slot.
+#[derive(Debug, Clone, PartialEq, Eq, Hash, PartialOrd, Ord)]
+pub struct VerifSlot {
+    /// Is there a slot at all (it may be erased by a non-tree merge).
+    pub exists: bool,
+    /// Group tag: 0 = absent, 1 = present and ungrouped, >=2 = group.
+    pub branch: usize,
+    /// 0 = Empty, 1 = Stored (unread), 2 = Taken (read).
+    pub persistence: u8,
+    /// The bytes of the datum, as `bytes()` sees them.
+    pub data: Vec<u8>,
+    /// Is the datum kept in the heap variant.
+    pub heap: bool,
+    /// The complete inline array (with padding), if inline.
+    pub inline: [u8; 8],
+    /// Edges, in the order of enumeration, label printed.
+    pub edges: Vec<(String, usize)>,
+}
+
+/// A plain copy of the entire graph.
+#[derive(Debug, Clone, PartialEq, Eq, Hash, PartialOrd, Ord)]
+pub struct VerifSnapshot {
+    /// Capacity of the vertex store.
+    pub capacity: usize,
+    /// Position of the id allocator.
+    pub next_v: usize,
+    /// All slots, by id.
+    pub slots: Vec<VerifSlot>,
+    /// Member lists of all groups, by group number.
+    pub branches: Vec<Vec<usize>>,
+    /// Unread counters of all groups, by group number.
+    pub stores: Vec<usize>,
+}
+
+impl<const N: usize> Sodg<N> {
+    /// Take a plain-data snapshot of the internal state.
+    #[must_use]
+    pub fn verif_snapshot(&self) -> VerifSnapshot {
+        let capacity = self.vertices.capacity();
+        let mut slots = Vec::with_capacity(capacity);
+        for v in 0..capacity {
+            if let Some(vtx) = self.vertices.get(v) {
+                let (heap, inline) = match &vtx.data {
+                    Hex::Vector(_) => (true, [0_u8; 8]),
+                    Hex::Bytes(a, _) => (false, *a),
+                };
+                slots.push(VerifSlot {
+                    exists: true,
+                    branch: vtx.branch,
+                    persistence: match vtx.persistence {
+                        Persistence::Empty => 0,
+                        Persistence::Stored => 1,
+                        Persistence::Taken => 2,
+                    },
+                    data: vtx.data.bytes().to_vec(),
+                    heap,
+                    inline,
+                    edges: vtx.edges.iter().map(|(a, t)| (a.to_string(), *t)).collect(),
+                });
+            } else {
+                slots.push(VerifSlot {
+                    exists: false,
+                    branch: 0,
+                    persistence: 0,
+                    data: vec![],
+                    heap: false,
+                    inline: [0_u8; 8],
+                    edges: vec![],
+                });
+            }
+        }
+        let mut branches = Vec::new();
+        for b in 0..self.branches.capacity() {
+            branches.push(
+                self.branches
+                    .get(b)
+                    .map_or_else(Vec::new, |m| m.iter().copied().collect()),
+            );
+        }
+        let mut stores = Vec::new();
+        for b in 0..self.stores.capacity() {
+            stores.push(self.stores.get(b).copied().unwrap_or(0));
+        }
+        VerifSnapshot {
+            capacity,
+            next_v: self.next_v,
+            slots,
+            branches,
+            stores,
+        }
+    }
+}
